@@ -549,7 +549,7 @@ func runC14(c *Ctx) {
 	}
 
 	// ---------- R14.5 resume keeps selectors
-	c.Rule("R14.5", "E3", "a re-established remote watch keeps its label/ID queries (shared with C13 R13.1)", 6)
+	c.Rule("R14.5", "E3", "a re-established remote watch keeps its label/ID queries (shared with C13 R13.1)", 4)
 	resumeRequestRule(c, "R14.5")
 
 	// ---------- R14.6 (shared with C11 R11.10)
